@@ -206,3 +206,18 @@ def parse_item(b, depth=0):
     x = parse_item(r, depth + 1)
     if x is None: return None
     return (("g", n, x[0]), x[1])
+
+
+# ---- twins of DT cases for the context-free typed iterators Decoder::array_iter / map_iter (AIT / MIT ops)
+AIT_ELEMS = {"seq(u8)": "u8", "seq(opt(u16))": "opt(u16)", "seq(seq(i8))": "seq(i8)", "seq(string)": "string",
+             "seq(tup(u8,string))": "tup(u8,string)", "seq(result(u8,string))": "result(u8,string)"}
+MIT_PAIRS = {"bmap(u8,string)": ("u8", "string"), "bmap(string,seq(u8))": ("string", "seq(u8)")}
+def iter_twins(lines):
+    out = []
+    for l in lines:
+        t = l.split()
+        if t[0] != "DT": continue
+        rest = [x for x in t[3:] if not x.startswith("=")]
+        if t[1] in AIT_ELEMS: out.append(" ".join(["AIT", AIT_ELEMS[t[1]], t[2]] + rest))
+        elif t[1] in MIT_PAIRS: out.append(" ".join(["MIT", MIT_PAIRS[t[1]][0], MIT_PAIRS[t[1]][1], t[2]] + rest))
+    return out
